@@ -45,7 +45,10 @@ def pageHeaders (file : Bytes) (f : FMD) : R (List PHdr) :=
   (f.rowGroups.flatMap (·.columns)).foldlM (fun acc ch =>
     match ch.md with
     | none => .error .panic
-    | some m => match pageHeadersAt file m.dataPageOffset m.numValues with
+    | some m =>
+      -- a column chunk without bytes (a row group without rows) has no pages
+      if m.totalCompressed = 0 then .ok acc else
+      match pageHeadersAt file m.dataPageOffset m.numValues with
       | .error e => .error e
       | .ok hs => .ok (acc ++ hs)) []
 
